@@ -13,7 +13,7 @@ import (
 
 func init() { Registry["C12"] = runC12 }
 
-const explanationC12 = "Decides the crash and acceptance shapes named by C12's anchors over every function of package dsl and the validators of package expr: (R12.1) every type assertion in dsl on the evaluation context, on `any` arguments or on data types is comma-ok, a type-switch arm, or dominated by a successful test of the same value; (R12.2) every constant index or slice of a variadic DSL argument list is covered by a dominating bound on its length; (R12.3) results of nil-returning lookups (Find, Attribute, View, Error, Service, UserType, …, computed as pointer/interface-returning functions of expr with an explicit `return nil`) are not dereferenced in dsl or in expr's Validate/Prepare code without a dominating nil test, and pointer variables that a function compares with nil are not dereferenced where no such test dominates; (R12.4) validators are wired and complete — unexported validate* helpers are called with their result consumed, validation results are never dropped, validation loops that record errors have no early exit, search flags set in an inner loop are reset in the enclosing loop (no stale found flag), and self-recursive walkers pass their recursion guard through every recursive call; (R12.5) the validator looks API keys up under the scheme-qualified tag the consumers use; (R12.6) it validates the requirements the finalizer will hand to the generators. shared R06.3 (requirement inheritance in MethodExpr.Finalize: method, else service, else API). (R12.8) package dsl re-exports the names of package expr under their own names. (R12.9) the parallel slices of ValidationErrors (Errors/Expressions) grow together on every path, so every reported error keeps its expression; (R12.10) the type-switch arms that check transport mappings against the payload (Payload.Find) cover the payload given as an object and as a user type alike. NOT decided: termination and absence of all panics for all DSL programs (whole-program nil/bounds proof), semantic completeness of the validators."
+const explanationC12 = "Decides the crash and acceptance shapes named by C12's anchors over every function of package dsl and the validators of package expr: (R12.1) every type assertion in dsl on the evaluation context, on `any` arguments or on data types is comma-ok, a type-switch arm, or dominated by a successful test of the same value; (R12.2) every constant index or slice of a variadic DSL argument list is covered by a dominating bound on its length; (R12.3) results of nil-returning lookups (Find, Attribute, View, Error, Service, UserType, …, computed as pointer/interface-returning functions of expr with an explicit `return nil`) are not dereferenced in dsl or in expr's Validate/Prepare code without a dominating nil test, and pointer variables that a function compares with nil are not dereferenced where no such test dominates; (R12.4) validators are wired and complete — unexported validate* helpers are called with their result consumed, validation results are never dropped, validation loops that record errors have no early exit, search flags set in an inner loop are reset in the enclosing loop (no stale found flag), and self-recursive walkers pass their recursion guard through every recursive call; (R12.5) the validator looks API keys up under the scheme-qualified tag the consumers use; (R12.6) it validates the requirements the finalizer will hand to the generators. shared R06.3 (requirement inheritance in MethodExpr.Finalize: method, else service, else API). (R12.8) package dsl re-exports the names of package expr under their own names. (R12.9) the parallel slices of ValidationErrors (Errors/Expressions) grow together on every path, so every reported error keeps its expression; (R12.10) the type-switch arms that check transport mappings against the payload (Payload.Find) cover the payload given as an object and as a user type alike. (R12.11) a value obtained from a comma-ok assertion to a pointer type in package dsl is only dereferenced where the assertion succeeded; (R12.12) methods of one expression type that type-switch on the same receiver field list the same types; (R12.13) fields that a Prepare method defaults are nil-tested by the Dup method of the same type; (R12.14) an As* kind conversion dereferenced on the spot is preceded by a reason for the kind (matching Is*/nil test, type-switch arm, mapped attribute, kind predicate, all callers) or reviewed with the assignment sites that establish it; (R12.15) an attribute that a DSL function creates for the user's function and keeps has a Type or is tested for one. NOT decided: termination and absence of all panics for all DSL programs (whole-program nil/bounds proof), semantic completeness of the validators."
 
 func runC12(c *an.Ctx) string {
 	r121Assertions(c)
@@ -21,6 +21,11 @@ func runC12(c *an.Ctx) string {
 	r123Lookups(c)
 	r124Validators(c)
 	r1210PayloadLookups(c, "R12.10")
+	r1211CommaOKUses(c, "R12.11")
+	r1212SiblingSwitches(c, "R12.12")
+	r1213DupBeforePrepare(c, "R12.13")
+	r1214Conversions(c, "R12.14")
+	r1215UntypedAttributes(c, "R12.15")
 	pairedStoresRule(c, "R12.9", "verrs") // every reported error keeps its location: the two parallel slices grow together
 	r067InheritanceAgreement(c, "R12.6") // the validator checks the requirements the generators will use
 	r06SchemeKeyed(c, "R12.5")           // validator and consumers look API keys up under the same scheme-qualified key
@@ -764,4 +769,800 @@ func r1210PayloadLookups(c *an.Ctx, rule string) {
 		})
 	}
 	c.Floor(rule, sites, 3, "payload-lookup arms of type switches in package expr")
+}
+
+// r1211CommaOKUses (R12.11): `v, ok := eval.Current().(*expr.T)` gives a nil v when the DSL function is called in the
+// wrong place. Reporting the misuse (eval.IncompatibleDSL) is not enough: the function must also stop, or every field
+// access through v panics instead of the error being returned. Every field selection through the value of a
+// comma-ok assertion to a pointer type in package dsl happens where ok is known to hold (or v is known non-nil).
+func r1211CommaOKUses(c *an.Ctx, rule string) {
+	uses := 0
+	for _, f := range c.AllFuncs("dsl") {
+		info := f.Pkg.TypesInfo
+		type pair struct{ v, ok types.Object }
+		var pairs []pair
+		ast.Inspect(f.Decl.Body, func(n ast.Node) bool {
+			as, isAs := n.(*ast.AssignStmt)
+			if !isAs || len(as.Lhs) != 2 || len(as.Rhs) != 1 {
+				return true
+			}
+			ta, isTA := an.Unparen(as.Rhs[0]).(*ast.TypeAssertExpr)
+			if !isTA || ta.Type == nil {
+				return true
+			}
+			if _, isPtr := info.Types[ta.Type].Type.Underlying().(*types.Pointer); !isPtr {
+				return true
+			}
+			v, okv := an.ObjOf(info, as.Lhs[0]), an.ObjOf(info, as.Lhs[1])
+			if v != nil && okv != nil {
+				pairs = append(pairs, pair{v, okv})
+			}
+			return true
+		})
+		if len(pairs) == 0 {
+			continue
+		}
+		var g *an.CFG
+		for _, p := range pairs {
+			reported := false
+			c.InspectAll(f, func(hf *an.Func, n ast.Node) bool {
+				if hf != f || reported {
+					return true
+				}
+				se, isSel := n.(*ast.SelectorExpr)
+				if !isSel {
+					return true
+				}
+				id, isId := an.Unparen(se.X).(*ast.Ident)
+				if !isId || an.ObjOf(info, id) != p.v {
+					return true
+				}
+				sel := info.Selections[se]
+				if sel == nil || sel.Kind() != types.FieldVal {
+					return true // a method call on a nil pointer reaches the method; only field access dereferences here
+				}
+				uses++
+				if g == nil {
+					g = an.NewCFG(info, f.Decl.Body)
+				}
+				facts, found := g.FactsFor(se)
+				if !found {
+					return true // inside a function literal: evaluated later, not decided here
+				}
+				safe := false
+				for _, fc := range facts {
+					cond, holds := an.Unparen(fc.Cond), fc.Holds
+					for {
+						if u, isNot := cond.(*ast.UnaryExpr); isNot && u.Op == token.NOT {
+							cond, holds = an.Unparen(u.X), !holds
+							continue
+						}
+						break
+					}
+					if cid, isCid := cond.(*ast.Ident); isCid && an.ObjOf(info, cid) == p.ok && holds {
+						safe = true
+					}
+					if x, notNil, isCmp := an.NilCompare(info, cond); isCmp && an.ObjOf(info, x) == p.v && notNil == holds {
+						safe = true
+					}
+				}
+				if !safe {
+					reported = true
+					c.Failf(rule, fmt.Sprintf("%s#%s.%s", c.RefName(f), p.v.Name(), se.Sel.Name), se.Pos(),
+						"%s comes from a comma-ok type assertion and is nil when %s is false, yet %s.%s is evaluated on a path where %s has not been established: a DSL function called in the wrong place panics here instead of reporting an error", p.v.Name(), p.ok.Name(), p.v.Name(), se.Sel.Name, p.ok.Name())
+				}
+				return true
+			})
+		}
+	}
+	if uses > 0 {
+		c.Okf(rule, "dsl#comma-ok values", "%d field accesses through values of comma-ok assertions examined: each is reached only where the assertion succeeded (violations listed separately)", uses)
+	}
+	c.Floor(rule, uses, 60, "field accesses through comma-ok assertion values in package dsl")
+}
+
+// r1212SiblingSwitches (R12.12): the methods of one expression type that dispatch on the dynamic type of the same
+// operand (`switch p := e.Response.Parent.(type)` in Validate and in Finalize) are siblings: they must list the same
+// types. A type one of them handles and the other does not is validated but not finalized (or the reverse): the
+// design is accepted and a later phase dereferences what the skipped arm would have set.
+func r1212SiblingSwitches(c *an.Ctx, rule string) {
+	type sw struct {
+		f     *an.Func
+		stmt    *ast.TypeSwitchStmt
+		cases   map[string]bool
+		lookups map[string]map[string]bool // case type -> lookups made in the arm
+	}
+	groups := map[string][]sw{} // receiver type | operand -> switches
+	for _, f := range c.AllFuncs("expr") {
+		if f.Decl.Recv == nil || len(f.Decl.Recv.List) == 0 {
+			continue
+		}
+		recvT := types.ExprString(f.Decl.Recv.List[0].Type)
+		info := f.Pkg.TypesInfo
+		ast.Inspect(f.Decl.Body, func(n ast.Node) bool {
+			ts, ok := n.(*ast.TypeSwitchStmt)
+			if !ok {
+				return true
+			}
+			var ta *ast.TypeAssertExpr
+			switch a := ts.Assign.(type) {
+			case *ast.ExprStmt:
+				ta, _ = an.Unparen(a.X).(*ast.TypeAssertExpr)
+			case *ast.AssignStmt:
+				if len(a.Rhs) == 1 {
+					ta, _ = an.Unparen(a.Rhs[0]).(*ast.TypeAssertExpr)
+				}
+			}
+			if ta == nil {
+				return true
+			}
+			root := an.RootIdent(ta.X)
+			if root == nil || !isReceiver(f, root) {
+				return true // only operands reached from the receiver are comparable between methods
+			}
+			if _, isSel := an.Unparen(ta.X).(*ast.SelectorExpr); !isSel {
+				return true
+			}
+			cases := map[string]bool{}
+			lookups := map[string]map[string]bool{}
+			var bound types.Object
+			if a, ok := ts.Assign.(*ast.AssignStmt); ok && len(a.Lhs) == 1 {
+				if id, ok := a.Lhs[0].(*ast.Ident); ok {
+					bound = info.Defs[id] // nil: the variable is declared per clause (Implicits)
+					_ = bound
+				}
+			}
+			for _, cl := range ts.Body.List {
+				cc := cl.(*ast.CaseClause)
+				for _, e := range cc.List {
+					cases[types.ExprString(e)] = true
+				}
+				if len(cc.List) != 1 {
+					continue
+				}
+				// the lookups the arm makes through the value it switched on (or through the design root)
+				implicit := info.Implicits[cc]
+				set := map[string]bool{}
+				for _, st := range cc.Body {
+					ast.Inspect(st, func(m ast.Node) bool {
+						call, ok := m.(*ast.CallExpr)
+						if !ok {
+							return true
+						}
+						se, ok := an.Unparen(call.Fun).(*ast.SelectorExpr)
+						if !ok {
+							return true
+						}
+						root := an.RootIdent(se.X)
+						if root == nil {
+							return true
+						}
+						ro := an.ObjOf(info, root)
+						if ro == nil || (ro != implicit && root.Name != "Root") {
+							return true
+						}
+						path := types.ExprString(se)
+						path = path[strings.Index(path, ".")+1:]
+						if ro == implicit {
+							path = "‹switched value›." + path
+						} else {
+							path = "Root." + path
+						}
+						set[path] = true
+						return true
+					})
+				}
+				lookups[types.ExprString(cc.List[0])] = set
+			}
+			key := recvT + "|" + an.CanonExpr(info, f.Decl, ta.X, nil)
+			groups[key] = append(groups[key], sw{f, ts, cases, lookups})
+			return true
+		})
+	}
+	n := 0
+	for _, key := range sortedKeys(groups) {
+		g := groups[key]
+		if len(g) < 2 {
+			continue
+		}
+		union := map[string]bool{}
+		for _, s := range g {
+			for t := range s.cases {
+				union[t] = true
+			}
+		}
+		for _, s := range g {
+			n++
+			var missing []string
+			for t := range union {
+				if !s.cases[t] && t != "nil" {
+					missing = append(missing, t)
+				}
+			}
+			sort.Strings(missing)
+			operand := key[strings.Index(key, "|")+1:]
+			construct := fmt.Sprintf("%s#typeswitch(%s)", c.RefName(s.f), operand)
+			// arms for one type look the name up the same way in every sibling
+			var deviating []string
+			for t, mine := range s.lookups {
+				if len(mine) == 0 {
+					continue
+				}
+				for _, o := range g {
+					theirs := o.lookups[t]
+					if o.stmt == s.stmt || len(theirs) == 0 {
+						continue
+					}
+					common := false
+					for l := range mine {
+						if theirs[l] {
+							common = true
+						}
+					}
+					if !common {
+						deviating = append(deviating, fmt.Sprintf("%s: %s here, %s in %s", t, strings.Join(sortedKeys(mine), "/"), strings.Join(sortedKeys(theirs), "/"), c.RefName(o.f)))
+					}
+				}
+			}
+			sort.Strings(deviating)
+			if len(deviating) > 0 {
+				c.Failf(rule, construct+"#lookups", s.stmt.Pos(), "the arm for one parent type consults a different table than the same arm of a sibling method (%s): what one method checks is not what the other uses", deviating[0])
+			}
+			if len(missing) == 0 {
+				c.Okf(rule, construct, "lists the same types as its %d sibling switch(es) over %s", len(g)-1, operand)
+			} else {
+				c.Failf(rule, construct, s.stmt.Pos(), "no arm for %s although a sibling method of the same type dispatching on %s has one: what that arm validates (or sets) is skipped here, and a later phase works on a value nobody checked (or prepared)", strings.Join(missing, ", "), operand)
+			}
+		}
+	}
+	c.Floor(rule, n, 2, "sibling type switches over a receiver field in package expr")
+}
+
+// r1213DupBeforePrepare (R12.13): a Prepare method that gives nil fields their defaults (`if r.F == nil { r.F = … }`)
+// documents that those fields may be nil until it ran. Copies are taken while designs are still being prepared
+// (an endpoint's Prepare dups the error responses of its service and of the API, and the API-level ones are prepared
+// by nobody), so the Dup method of the same type must tolerate them: every use of such a field as a call argument or
+// method receiver in Dup is guarded by a nil test of the field.
+func r1213DupBeforePrepare(c *an.Ctx, rule string) {
+	byRecv := map[string]map[string]*an.Func{}
+	for _, f := range c.AllFuncs("expr") {
+		if f.Decl.Recv == nil || len(f.Decl.Recv.List) == 0 {
+			continue
+		}
+		if n := f.Decl.Name.Name; n == "Prepare" || n == "Dup" {
+			rt := types.ExprString(f.Decl.Recv.List[0].Type)
+			if byRecv[rt] == nil {
+				byRecv[rt] = map[string]*an.Func{}
+			}
+			byRecv[rt][n] = f
+		}
+	}
+	pairs := 0
+	for _, rt := range sortedKeys(byRecv) {
+		prep, dup := byRecv[rt]["Prepare"], byRecv[rt]["Dup"]
+		if prep == nil || dup == nil {
+			continue
+		}
+		// fields defaulted in Prepare
+		pinfo := prep.Pkg.TypesInfo
+		lazy := map[string]bool{}
+		ast.Inspect(prep.Decl.Body, func(n ast.Node) bool {
+			is, ok := n.(*ast.IfStmt)
+			if !ok {
+				return true
+			}
+			x, notNil, isCmp := an.NilCompare(pinfo, is.Cond)
+			if !isCmp || notNil {
+				return true
+			}
+			se, ok := an.Unparen(x).(*ast.SelectorExpr)
+			if !ok {
+				return true
+			}
+			if id, ok := an.Unparen(se.X).(*ast.Ident); !ok || !isReceiver(prep, id) {
+				return true
+			}
+			for _, s := range is.Body.List {
+				if as, ok := s.(*ast.AssignStmt); ok && len(as.Lhs) == 1 && types.ExprString(as.Lhs[0]) == types.ExprString(x) {
+					if fv := an.FieldOf(pinfo, se); fv != nil {
+						lazy[an.CanonFieldName(fv)] = true
+					}
+				}
+			}
+			return true
+		})
+		if len(lazy) == 0 {
+			continue
+		}
+		pairs++
+		dinfo := dup.Pkg.TypesInfo
+		g := an.NewCFG(dinfo, dup.Decl.Body)
+		bad := 0
+		ast.Inspect(dup.Decl.Body, func(n ast.Node) bool {
+			call, ok := n.(*ast.CallExpr)
+			if !ok {
+				return true
+			}
+			var used []*ast.SelectorExpr
+			for _, a := range call.Args {
+				if se, ok := an.Unparen(a).(*ast.SelectorExpr); ok {
+					used = append(used, se)
+				}
+			}
+			if fs, ok := an.Unparen(call.Fun).(*ast.SelectorExpr); ok {
+				if se, ok := an.Unparen(fs.X).(*ast.SelectorExpr); ok {
+					used = append(used, se)
+				}
+			}
+			for _, se := range used {
+				id, ok := an.Unparen(se.X).(*ast.Ident)
+				if !ok || !isReceiver(dup, id) {
+					continue
+				}
+				fv := an.FieldOf(dinfo, se)
+				if fv == nil || !lazy[an.CanonFieldName(fv)] {
+					continue
+				}
+				if _, isPtr := fv.Type().Underlying().(*types.Pointer); !isPtr {
+					continue
+				}
+				// guarded by a nil test of the same field?
+				guarded := false
+				if facts, found := g.FactsFor(se); found {
+					for _, fc := range facts {
+						if x, notNil, isCmp := an.NilCompare(dinfo, fc.Cond); isCmp && notNil == fc.Holds && types.ExprString(x) == types.ExprString(se) {
+							guarded = true
+						}
+					}
+				}
+				// or handed to a function that accepts nil (tests its parameter against nil before using it)
+				if !guarded && acceptsNil(c, dup, call, se) {
+					guarded = true
+				}
+				if !guarded {
+					bad++
+					c.Failf(rule, fmt.Sprintf("%s#%s", c.RefName(dup), types.ExprString(se)), se.Pos(),
+						"%s is nil until %s.Prepare ran (Prepare gives it its default), yet Dup passes it to %s without a nil test: copying a value that has not been prepared yet - the API-level error responses an endpoint inherits - panics during evaluation", types.ExprString(se), rt, types.ExprString(call.Fun))
+				}
+			}
+			return true
+		})
+		if bad == 0 {
+			c.Okf(rule, c.RefName(dup), "every field that Prepare defaults is nil-tested in Dup before it is copied (%d fields)", len(lazy))
+		}
+	}
+	c.Floor(rule, pairs, 2, "expression types with a defaulting Prepare and a Dup")
+}
+
+// acceptsNil: the argument se of call is a parameter the callee compares with nil before any other use (first
+// statement `if p == nil { return … }`).
+func acceptsNil(c *an.Ctx, f *an.Func, call *ast.CallExpr, se *ast.SelectorExpr) bool {
+	callee := c.FuncOfObj(an.Callee(f.Pkg.TypesInfo, call))
+	if callee == nil || len(callee.Decl.Body.List) == 0 {
+		return false
+	}
+	pi := -1
+	for i, a := range call.Args {
+		if an.Unparen(a) == ast.Expr(se) {
+			pi = i
+		}
+	}
+	if pi < 0 {
+		return false
+	}
+	sig := callee.Obj.Type().(*types.Signature)
+	if pi >= sig.Params().Len() {
+		return false
+	}
+	is, ok := callee.Decl.Body.List[0].(*ast.IfStmt)
+	if !ok {
+		return false
+	}
+	x, notNil, isCmp := an.NilCompare(callee.Pkg.TypesInfo, is.Cond)
+	return isCmp && !notNil && an.ObjOf(callee.Pkg.TypesInfo, x) == sig.Params().At(pi)
+}
+
+// r1214Conversions (R12.14): expr.AsObject / AsArray / AsMap / AsUnion return nil when the type is of another kind.
+// A result that is dereferenced on the spot (`*AsObject(x.Type)`, `AsArray(t).ElemType`) needs a reason to be
+// non-nil at that point; anything a user's DSL can make of another kind (an empty Message(func(){}), a primitive
+// payload) otherwise crashes evaluation. Accepted reasons, each structural:
+//   (a) a dominating test of the same operand with the matching Is* predicate, a nil test of the same conversion, or
+//       the arm of a type switch over the operand that lists the kind;
+//   (b) the operand is the Type of a *MappedAttributeExpr (its constructor only accepts objects);
+//   (c) the operand was assigned from a composite literal of the kind, or from the matching conversion tested non-nil.
+// Sites none of these covers are listed in reviewedConversions with the invariant that makes them safe, read one
+// by one; a site that is neither proved nor reviewed fails.
+var reviewedConversions = map[string]string{
+	"expr.AttributeExpr.debug#AsObject(‹*expr.ViewExpr›.AttributeExpr.Type)":  "debugging printer (AttributeExpr.Debug), not part of evaluation; a view's attribute is an object by construction (dsl buildView rejects anything else)",
+	"expr.GRPCEndpointExpr.Finalize#AsObject(recv.Request.Type)":              "Request is assigned in two places only: Prepare (Type Empty, an object) and dsl.Message, which creates it as an object (R12.15)",
+	"expr.GRPCResponseExpr.Finalize#AsObject(recv.Message.Type)":              "Message is assigned by Prepare (Empty) and by dsl.Message, which creates it as an object (R12.15)",
+	"expr.GRPCResponseExpr.Validate#AsObject(recv.Message.Type)":              "Message is assigned by Prepare (Empty) and by dsl.Message, which creates it as an object (R12.15)",
+	"expr.validateMessage#AsObject(p0.Type)":                                  "both callers pass a request/response message: Request and Message are assigned by Prepare (Empty) and by dsl.Message, which creates them as objects (R12.15)",
+	"expr.HostExpr.URIString#AsObject(recv.Variables.Type)":                   "Variables is created as &AttributeExpr{Type: &Object{}} at its three assignment sites (dsl.Host, HostExpr.Finalize twice)",
+}
+
+func r1214Conversions(c *an.Ctx, rule string) {
+	kindOf := map[string]string{"AsObject": "Object", "AsArray": "Array", "AsMap": "Map", "AsUnion": "Union"}
+	sites, proved := 0, 0
+	for _, dir := range []string{"expr", "dsl"} {
+		for _, f := range c.AllFuncs(dir) {
+			info := f.Pkg.TypesInfo
+			parents := an.ParentMap(f.Decl.Body)
+			ast.Inspect(f.Decl.Body, func(n ast.Node) bool {
+				call, ok := n.(*ast.CallExpr)
+				if !ok || len(call.Args) != 1 {
+					return true
+				}
+				cn := an.CalleeName(info, call)
+				short := cn[strings.LastIndex(cn, ".")+1:]
+				kind, isConv := kindOf[short]
+				if !isConv || !strings.HasSuffix(cn, "expr."+short) {
+					return true
+				}
+				// dereferenced on the spot?
+				p := parents[call]
+				for {
+					if pe, ok := p.(*ast.ParenExpr); ok {
+						p = parents[pe]
+						continue
+					}
+					break
+				}
+				deref := false
+				switch x := p.(type) {
+				case *ast.StarExpr:
+					deref = true
+				case *ast.SelectorExpr:
+					if x.X == ast.Expr(call) || an.Unparen(x.X) == ast.Expr(call) {
+						if sel := info.Selections[x]; sel != nil && sel.Kind() == types.FieldVal {
+							deref = true
+						}
+					}
+				}
+				if !deref {
+					return true
+				}
+				sites++
+				arg := an.Unparen(call.Args[0])
+				argText := types.ExprString(arg)
+				construct := fmt.Sprintf("%s#%s(%s)", c.RefName(f), short, an.CanonExpr(info, f.Decl, arg, nil))
+				why := ""
+				// (b) Type of a mapped attribute
+				if se, ok := arg.(*ast.SelectorExpr); ok && se.Sel.Name == "Type" {
+					if tv, ok := info.Types[se.X]; ok && strings.HasSuffix(an.NamedTypeName(derefType(tv.Type)), "expr.MappedAttributeExpr") {
+						why = "operand is the type of a mapped attribute, always an object"
+					}
+				}
+				if why == "" {
+					why = kindEstablished(c, f, call, argText, kind, cn, 0)
+				}
+				if why != "" {
+					proved++
+					c.Okf(rule, construct, "%s", why)
+					return true
+				}
+				for _, root := range c.RootNames(f) {
+					if r, ok := reviewedConversions[root+"#"+short+"("+an.CanonExpr(info, f.Decl, arg, nil)+")"]; ok {
+						c.Okf(rule, construct, "reviewed: %s", r)
+						return true
+					}
+				}
+				c.Failf(rule, construct, call.Pos(), "%s(%s) is dereferenced on the spot, and nothing on the way here shows that %s is of that kind: when a design makes it something else the conversion returns nil and evaluation panics instead of reporting an error", short, argText, argText)
+				return true
+			})
+		}
+	}
+	c.Stats["conversions_dereferenced"] = sites
+	c.Stats["conversions_proved"] = proved
+	c.Floor(rule, sites, 30, "kind conversions dereferenced on the spot in packages expr and dsl")
+}
+
+// kindEstablished returns the reason why, where node is evaluated in f, the type expression written operand is
+// known to be of the given kind ("" if none): a dominating Is<kind>(operand) or non-nil As<kind>(operand) test, the
+// *<kind> arm of a type switch over operand, a dominating call of a predicate whose body is one conjunction that
+// contains such a test of its receiver or parameter, or - when operand is P.Type for a parameter P of f - the same
+// at every call site of f for the argument passed as P.
+func kindEstablished(c *an.Ctx, f *an.Func, node ast.Node, operand, kind, conv string, depth int) string {
+	info := f.Pkg.TypesInfo
+	g := an.NewCFG(info, f.Decl.Body)
+	isTest := func(cond ast.Expr, holds bool, text string) bool {
+		cond = an.Unparen(cond)
+		if pc, ok := cond.(*ast.CallExpr); ok && holds && len(pc.Args) == 1 && types.ExprString(an.Unparen(pc.Args[0])) == text {
+			if pn := an.CalleeName(info, pc); strings.HasSuffix(pn, "expr.Is"+kind) {
+				return true
+			}
+		}
+		if x, notNil, isCmp := an.NilCompare(info, cond); isCmp && notNil == holds {
+			if xc, ok := an.Unparen(x).(*ast.CallExpr); ok && strings.HasSuffix(an.CalleeName(info, xc), "expr.As"+kind) && len(xc.Args) == 1 && types.ExprString(an.Unparen(xc.Args[0])) == text {
+				return true
+			}
+		}
+		return false
+	}
+	if facts, found := g.FactsFor(node); found {
+		for _, fc := range facts {
+			cond, holds := an.Unparen(fc.Cond), fc.Holds
+			for {
+				if u, isNot := cond.(*ast.UnaryExpr); isNot && u.Op == token.NOT {
+					cond, holds = an.Unparen(u.X), !holds
+					continue
+				}
+				break
+			}
+			if isTest(cond, holds, operand) {
+				return "dominated by a test of the same operand (Is" + kind + " / non-nil As" + kind + ")"
+			}
+			// a predicate of the module: `x.shouldInherit(y)` whose body is `return … && AsObject(recv.Type) != nil && …`
+			if pc, ok := cond.(*ast.CallExpr); ok && holds {
+				if callee := c.FuncOfObj(an.Callee(info, pc)); callee != nil && len(callee.Decl.Body.List) == 1 {
+					if ret, ok := callee.Decl.Body.List[0].(*ast.ReturnStmt); ok && len(ret.Results) == 1 {
+						subst := map[string]string{}
+						if callee.Decl.Recv != nil && len(callee.Decl.Recv.List) == 1 && len(callee.Decl.Recv.List[0].Names) == 1 {
+							if se, ok := an.Unparen(pc.Fun).(*ast.SelectorExpr); ok {
+								subst[callee.Decl.Recv.List[0].Names[0].Name] = types.ExprString(se.X)
+							}
+						}
+						k := 0
+						for _, fl := range callee.Decl.Type.Params.List {
+							for _, nm := range fl.Names {
+								if k < len(pc.Args) {
+									subst[nm.Name] = types.ExprString(pc.Args[k])
+								}
+								k++
+							}
+						}
+						var conj func(e ast.Expr) bool
+						conj = func(e ast.Expr) bool {
+							e = an.Unparen(e)
+							if b, ok := e.(*ast.BinaryExpr); ok && b.Op == token.LAND {
+								return conj(b.X) || conj(b.Y)
+							}
+							cinfo := callee.Pkg.TypesInfo
+							var inner ast.Expr
+							if x, notNil, isCmp := an.NilCompare(cinfo, e); isCmp && notNil {
+								if xc, ok := an.Unparen(x).(*ast.CallExpr); ok && strings.HasSuffix(an.CalleeName(cinfo, xc), "expr.As"+kind) && len(xc.Args) == 1 {
+									inner = xc.Args[0]
+								}
+							}
+							if xc, ok := e.(*ast.CallExpr); ok && strings.HasSuffix(an.CalleeName(cinfo, xc), "expr.Is"+kind) && len(xc.Args) == 1 {
+								inner = xc.Args[0]
+							}
+							if inner == nil {
+								return false
+							}
+							if se, ok := an.Unparen(inner).(*ast.SelectorExpr); ok {
+								if id, ok := an.Unparen(se.X).(*ast.Ident); ok {
+									if actual, ok := subst[id.Name]; ok && actual+"."+se.Sel.Name == operand {
+										return true
+									}
+								}
+							}
+							return false
+						}
+						if conj(ret.Results[0]) {
+							return "dominated by " + types.ExprString(pc.Fun) + ", which holds only for that kind"
+						}
+					}
+				}
+			}
+		}
+	}
+	parents := an.ParentMap(f.Decl.Body)
+	for q := parents[node]; q != nil; q = parents[q] {
+		cc, ok := q.(*ast.CaseClause)
+		if !ok {
+			continue
+		}
+		ts, ok := parents[parents[cc]].(*ast.TypeSwitchStmt)
+		if !ok {
+			continue
+		}
+		var ta *ast.TypeAssertExpr
+		switch a := ts.Assign.(type) {
+		case *ast.ExprStmt:
+			ta, _ = an.Unparen(a.X).(*ast.TypeAssertExpr)
+		case *ast.AssignStmt:
+			if len(a.Rhs) == 1 {
+				ta, _ = an.Unparen(a.Rhs[0]).(*ast.TypeAssertExpr)
+			}
+		}
+		if ta == nil || types.ExprString(an.Unparen(ta.X)) != operand || len(cc.List) == 0 {
+			continue
+		}
+		all := true
+		for _, e := range cc.List {
+			if t := types.ExprString(e); t != "*"+kind && t != "*expr."+kind {
+				all = false
+			}
+		}
+		if all {
+			return "inside the *" + kind + " arm of a type switch over the operand"
+		}
+	}
+	// every caller establishes it for the argument
+	if depth < 1 && strings.HasSuffix(operand, ".Type") {
+		pname := strings.TrimSuffix(operand, ".Type")
+		pi, k := -1, 0
+		for _, fl := range f.Decl.Type.Params.List {
+			for _, nm := range fl.Names {
+				if nm.Name == pname {
+					pi = k
+				}
+				k++
+			}
+		}
+		if callers := c.CallersOf(f); pi >= 0 && len(callers) > 0 {
+			for _, cs := range callers {
+				if pi >= len(cs.Call.Args) {
+					return ""
+				}
+				if kindEstablished(c, cs.In, cs.Call, types.ExprString(an.Unparen(cs.Call.Args[pi]))+".Type", kind, conv, depth+1) == "" {
+					return ""
+				}
+			}
+			return fmt.Sprintf("every one of the %d call sites establishes the kind of its argument", len(callers))
+		}
+	}
+	return ""
+}
+
+func derefType(t types.Type) types.Type {
+	if p, ok := t.(*types.Pointer); ok {
+		return p.Elem()
+	}
+	return t
+}
+
+// r1215UntypedAttributes (R12.15): DSL functions that let the user describe an attribute create it, hand it to the
+// user's function with eval.Execute and then keep it. A literal `&expr.AttributeExpr{}` has no Type, and it still has
+// none when the user's function adds nothing (`Message(func() {})`): every consumer that takes the type for an object
+// then panics. Where such an attribute leaves the function - into expr.NewMappedAttributeExpr, through a setter
+// closure, into a field - either the literal gave it a Type, or a test of its Type dominates the hand-over, or the
+// function that receives it starts by testing the Type itself.
+func r1215UntypedAttributes(c *an.Ctx, rule string) {
+	sites := 0
+	for _, f := range c.AllFuncs("dsl") {
+		info := f.Pkg.TypesInfo
+		type made struct {
+			v     types.Object
+			typed bool
+			lit   *ast.CompositeLit
+		}
+		var attrs []made
+		ast.Inspect(f.Decl.Body, func(n ast.Node) bool {
+			as, ok := n.(*ast.AssignStmt)
+			if !ok || len(as.Lhs) != 1 || len(as.Rhs) != 1 {
+				return true
+			}
+			u, ok := an.Unparen(as.Rhs[0]).(*ast.UnaryExpr)
+			if !ok || u.Op != token.AND {
+				return true
+			}
+			cl, ok := u.X.(*ast.CompositeLit)
+			if !ok || !strings.HasSuffix(an.NamedTypeName(info.Types[cl].Type), "expr.AttributeExpr") {
+				return true
+			}
+			_, typed := litFields(cl)["Type"]
+			if v := an.ObjOf(info, as.Lhs[0]); v != nil {
+				attrs = append(attrs, made{v, typed, cl})
+			}
+			return true
+		})
+		if len(attrs) == 0 {
+			continue
+		}
+		var g *an.CFG
+		for _, m := range attrs {
+			// handed to the user's function?
+			var exec *ast.CallExpr
+			ast.Inspect(f.Decl.Body, func(n ast.Node) bool {
+				call, ok := n.(*ast.CallExpr)
+				if ok && strings.HasSuffix(an.CalleeName(info, call), "eval.Execute") && len(call.Args) == 2 && an.ObjOf(info, call.Args[1]) == m.v && call.Pos() > m.lit.Pos() {
+					if exec == nil {
+						exec = call
+					}
+				}
+				return true
+			})
+			if exec == nil {
+				continue
+			}
+			ast.Inspect(f.Decl.Body, func(n ast.Node) bool {
+				var at ast.Node
+				what := ""
+				switch x := n.(type) {
+				case *ast.CallExpr:
+					if x == exec || x.Pos() < m.lit.Pos() {
+						return true
+					}
+					passed := false
+					for _, a := range x.Args {
+						if an.ObjOf(info, an.Unparen(a)) == m.v {
+							passed = true
+						}
+					}
+					if !passed || strings.HasSuffix(an.CalleeName(info, x), "eval.Execute") {
+						return true
+					}
+					callee := c.FuncOfObj(an.Callee(info, x))
+					if callee != nil && !strings.HasSuffix(callee.Name, ".NewMappedAttributeExpr") {
+						// a module function: fine when it starts by testing the Type of what it receives
+						if testsTypeFirst(callee, x, m.v, info) {
+							return true
+						}
+					}
+					at, what = x, "passed to "+types.ExprString(x.Fun)
+				case *ast.AssignStmt:
+					if x.Pos() < exec.Pos() {
+						return true
+					}
+					for i, r := range x.Rhs {
+						if an.ObjOf(info, an.Unparen(r)) == m.v && i < len(x.Lhs) {
+							if _, isSel := an.Unparen(x.Lhs[i]).(*ast.SelectorExpr); isSel {
+								at, what = x, "stored in "+types.ExprString(x.Lhs[i])
+							}
+						}
+					}
+				}
+				if at == nil {
+					return true
+				}
+				sites++
+				var keys []string
+				for k := range litFields(m.lit) {
+					keys = append(keys, k)
+				}
+				sort.Strings(keys)
+				construct := fmt.Sprintf("%s#%s{%s}:%s", c.RefName(f), m.v.Name(), strings.Join(keys, ","), what)
+				if m.typed {
+					c.Okf(rule, construct, "the attribute is created with a Type")
+					return true
+				}
+				if g == nil {
+					g = an.NewCFG(info, f.Decl.Body)
+				}
+				guarded := false
+				if facts, found := g.FactsFor(at); found {
+					for _, fc := range facts {
+						if x, notNil, isCmp := an.NilCompare(info, fc.Cond); isCmp && notNil == fc.Holds {
+							if se, ok := an.Unparen(x).(*ast.SelectorExpr); ok && se.Sel.Name == "Type" && an.ObjOf(info, an.Unparen(se.X)) == m.v {
+								guarded = true
+							}
+						}
+					}
+				}
+				if guarded {
+					c.Okf(rule, construct, "a test of the attribute's Type dominates the hand-over")
+				} else {
+					c.Failf(rule, construct, at.Pos(), "%s is created without a Type, filled by the user's function and then %s: when that function defines nothing (an empty func() {}) the Type is still nil and the consumers that take it for an object panic during evaluation", m.v.Name(), what)
+				}
+				return true
+			})
+		}
+	}
+	c.Floor(rule, sites, 5, "attributes created for a user DSL function and kept, in package dsl")
+}
+
+// testsTypeFirst: the callee's first statement compares the Type of the parameter that receives v with nil.
+func testsTypeFirst(callee *an.Func, call *ast.CallExpr, v types.Object, info *types.Info) bool {
+	pi := -1
+	for i, a := range call.Args {
+		if an.ObjOf(info, an.Unparen(a)) == v {
+			pi = i
+		}
+	}
+	sig := callee.Obj.Type().(*types.Signature)
+	if pi < 0 || pi >= sig.Params().Len() || len(callee.Decl.Body.List) == 0 {
+		return false
+	}
+	is, ok := callee.Decl.Body.List[0].(*ast.IfStmt)
+	if !ok {
+		return false
+	}
+	x, notNil, isCmp := an.NilCompare(callee.Pkg.TypesInfo, is.Cond)
+	if !isCmp || notNil {
+		return false
+	}
+	se, ok := an.Unparen(x).(*ast.SelectorExpr)
+	return ok && se.Sel.Name == "Type" && an.ObjOf(callee.Pkg.TypesInfo, an.Unparen(se.X)) == sig.Params().At(pi)
 }
